@@ -10,7 +10,8 @@ import os
 import pathlib
 import shutil
 import tempfile
-from typing import List
+import typing
+from typing import List, Optional
 
 from harness.core import sp
 
@@ -27,7 +28,11 @@ RULE = ("cases: (a) layers.e2e — a generated tree of nested dataclasses (depth
         "DataclassWrapper.set_default sequences on a real wrapper, slots and FieldWrapper.default read back. (c) "
         "layers.dict_union — utils.dict_union on 0-4 random nested dicts with dict/scalar clashes. (d) layers.history "
         "(oracle only) — 2-3 parses in one process, fresh parser / parse() per round, the SAME file paths rewritten with "
-        "new contents in between; every round must follow that round's contents. Non-trivial = an e2e case whose leaves "
+        "new contents in between; every round must follow that round's contents. (e) Optional members (oracle only, "
+        "outside the modelled fragment) — e2e scenarios over classes with members declared Optional[K] = None at depth 1 "
+        "and 2, in 60% of them no command-line option inside any optional group; the member must be an instance iff some "
+        "layer mentions one of its leaves (leaves then follow the priority rule, definition defaults otherwise), else None. "
+        "Non-trivial = an e2e case whose leaves "
         "use >= 2 different layers or has a nested leaf mentioned in a file, a history with >= 2 rounds, or a unit case "
         "with >= 2 sources; distinct by canonical JSON of the case.")
 ASSUMPTIONS = [
@@ -147,7 +152,9 @@ def build_inst(spec, pycls, kw):
             v = kw[f["name"]]
             if f["k"] == "nested":
                 sub = pycls.__dataclass_fields__[f["name"]].type
-                kwargs[f["name"]] = build_inst(f["cls"], sub, v)
+                if f.get("opt"):
+                    sub = typing.get_args(sub)[0]
+                kwargs[f["name"]] = None if v is None else build_inst(f["cls"], sub, v)
             else:
                 kwargs[f["name"]] = v
     return pycls(**kwargs)
@@ -166,7 +173,9 @@ def build_cls(spec, name):
                 fld = dataclasses.field(default=f["dflt"])
         else:
             ty = build_cls(f["cls"], name + "_" + f["name"])
-            if f["fac"] is None:
+            if f.get("opt"):
+                ty, fld = Optional[ty], dataclasses.field(default=None)     # `inner: Optional[Inner] = None`
+            elif f["fac"] is None:
                 fld = dataclasses.field()
             else:
                 fld = dataclasses.field(default_factory=(lambda s, t, kw: (lambda: build_inst(s, t, kw)))(f["cls"], ty, f["fac"]))
@@ -181,7 +190,8 @@ def inst_tree(spec, obj):
     for f in spec:
         v = getattr(obj, f["name"], None)
         if f["k"] == "nested":
-            out[f["name"]] = inst_tree(f["cls"], v) if dataclasses.is_dataclass(v) else {"raw": type(v).__name__}
+            out[f["name"]] = (inst_tree(f["cls"], v) if dataclasses.is_dataclass(v)
+                              else None if (v is None and f.get("opt")) else {"raw": type(v).__name__})
         elif v is None or is_leaf_value(v):
             out[f["name"]] = v
         else:
@@ -230,7 +240,72 @@ def gen_cls(rng, depth, mk, p_def=0.6):
     return fields
 
 
-def e2e_case(rng, mk, cls_list=None, api=None, force=None, malformed=None, fmt=None):
+def gen_cls_opt(rng, depth, mk, under_opt=False, top=True):
+    """like gen_cls, with nested members declared `Optional[K] = None` (at least one, at depth 1 and/or 2).  Below an
+    optional member every leaf has a (truthy) definition default and nested members are optional or required"""
+    n_leaf = rng.choice([1, 1, 2, 2]) if depth > 0 else rng.choice([1, 2, 3])
+    n_nest = 0 if depth == 0 else (rng.choice([1, 1, 2]) if top else rng.choice([0, 1, 1, 2]))
+    fields = []
+    for n in rng.sample(LEAF_NAMES, n_leaf):
+        ty = rng.choice([t for t in TYPES if t != "list"] if under_opt else TYPES)
+        has = under_opt or ty == "bool" or (ty != "list" and rng.random() < 0.6)
+        fields.append({"k": "leaf", "name": n, "ty": ty,
+                       "dflt": mk(ty, key=None if under_opt else ("defn", mk.n), p_falsy=0.15) if has else None})
+    for j, n in enumerate(rng.sample(NEST_NAMES, n_nest)):
+        opt = (top and j == 0 and rng.random() < 0.7) or rng.random() < 0.55
+        sub = gen_cls_opt(rng, depth - 1, mk, under_opt or opt, top=False)
+        fields.append({"k": "nested", "name": n, "fac": None, "opt": opt, "cls": sub})
+    rng.shuffle(fields)
+    return fields
+
+
+def opt_nodes(cls, pre=()):
+    """paths of the members declared Optional, outermost first"""
+    for f in cls:
+        if f["k"] == "nested":
+            if f.get("opt"):
+                yield pre + (f["name"],)
+            yield from opt_nodes(f["cls"], pre + (f["name"],))
+
+
+def _finding_open(fid):
+    try:
+        txt = (pathlib.Path(__file__).resolve().parents[2] / "known_findings.txt").read_text()
+    except OSError:
+        return False
+    return any(l.startswith("open:") and f"id={fid} " in l for l in txt.splitlines())
+
+
+def opt_case(rng, mk):
+    """a scenario over a class with Optional members; in most cases NO command-line option lies inside an optional group,
+    so that the group exists only because a file / set_defaults / default instance mentions it"""
+    while True:
+        cls = gen_cls_opt(rng, rng.choice([1, 2, 2]), mk)
+        if any(True for _ in opt_nodes(cls)):
+            break
+    case = e2e_case(rng, mk, cls_list=[cls], no_rl=True)
+    c = case["case"]
+    nodes = list(opt_nodes(cls))
+    dest = c["regs"][0]["dest"]
+    def drop_cmd(node):
+        cur = c["cmd"]
+        for q in (dest,) + node[:-1]:
+            cur = cur.get(q, {})
+        cur.pop(node[-1], None)
+    if rng.random() < 0.6:
+        for n in nodes:
+            drop_cmd(n)
+    elif not _finding_open("C06-optional-cmd-lost"):
+        # the shape of that finding (a group mentioned ONLY by command-line options deeper than its own direct fields) is
+        # generated only while the finding is listed as open; otherwise those options are removed
+        for n in nodes:
+            if _cmd_lost_shape(c, 0, n):
+                drop_cmd(n)
+    case["model"] = False     # Optional members are outside the modelled fragment
+    return case
+
+
+def e2e_case(rng, mk, cls_list=None, api=None, force=None, malformed=None, fmt=None, no_rl=False):
     """force: {(reg index, path): set of layer names} overrides the random layer assignment of those leaves"""
     api = api or rng.choice(["parse", "parser"])
     n_regs = 1 if api == "parse" else rng.choice([1, 1, 1, 2])
@@ -257,7 +332,7 @@ def e2e_case(rng, mk, cls_list=None, api=None, force=None, malformed=None, fmt=N
         cls = cls_list[ri] if cls_list is not None else gen_cls(rng, rng.choice([0, 1, 1, 2, 2]), mk)
         dest = dests[ri]
         modes = ["none", "inst"] if api == "parse" else ["none", "inst", "kw_after", "kw_after", "kw_before", "inst+kw_after"]
-        if api == "parser" and rootless:
+        if api == "parser" and rootless and not no_rl:
             modes.append("kw_before_rl")   # set_defaults(a=5) with root-less keywords before add_arguments
         if force and any("default" in ls for (i, _p), ls in force.items() if i == ri):
             modes = [m for m in modes if m not in ("none", "kw_before_rl")]   # a forced default layer must have a carrier
@@ -291,7 +366,7 @@ def e2e_case(rng, mk, cls_list=None, api=None, force=None, malformed=None, fmt=N
                     if f["k"] == "leaf":
                         if f["dflt"] is None and f["name"] not in kw:
                             kw[f["name"]] = mk(f["ty"])
-                    elif f["name"] in kw or f["fac"] is None:
+                    elif f["name"] in kw or (f["fac"] is None and not f.get("opt")):
                         complete(f["cls"], kw.setdefault(f["name"], {}))
             complete(cls, inst_kw)
         if mode == "kw_before_rl" and rng.random() < 0.6:
@@ -528,6 +603,9 @@ def gen(rng, tier):
                     cls = small_tree(rng, mk, shape, target, "defn" in chosen)
                     yield e2e_case(rng, mk, cls_list=[cls], api=api, force={(0, target): chosen - {"defn"}},
                                    fmt=rng.choice(FMTS))
+    # (e) Optional members (oracle only)
+    for _ in range(200 if tier == "quick" else 700):
+        yield opt_case(rng, mk)
     # (d) histories: the same file paths rewritten between parses (oracle only)
     for _ in range(60 if tier == "quick" else 400):
         yield history_case(rng, mk)
@@ -871,13 +949,56 @@ def expected_leaf(c, ri, path):
         # a default instance carries a value for every leaf: its attribute (stdlib construction)
         obj = build_inst(reg["cls"], build_cls(reg["cls"], "I"), reg["inst"])
         for q in path:
-            obj = getattr(obj, q)
+            obj = getattr(obj, q) if obj is not None else None
         if obj is not None:
             return [obj], "default-inst-attr"
     d = defn_value(reg["cls"], path)
     if d is not None:
         return [d], "defn"
     return None, None
+
+
+def all_mention_layers(c, ri, path):
+    """every layer that gives the leaf a non-None value (not only the highest)"""
+    reg = c["regs"][ri]
+    out = set()
+    v, ok = get_path(c["cmd"], (reg["dest"],) + path)
+    if ok and v is not None and not isinstance(v, dict):
+        out.add("cmd")
+    out |= {n for (n, v) in leaf_sources(c, reg, path) if v is not None}
+    if reg["inst"] is not None:
+        obj = build_inst(reg["cls"], build_cls(reg["cls"], "M"), reg["inst"])
+        for q in path:
+            obj = getattr(obj, q) if obj is not None else None
+        if obj is not None:
+            out.add("inst")
+    return out
+
+
+def group_mentions(c, ri, node):
+    """{leaf path: layers} for the leaves below the Optional member at `node` that some layer mentions"""
+    out = {}
+    for path, _f in leaf_paths(c["regs"][ri]["cls"]):
+        if path[:len(node)] == node:
+            ls = all_mention_layers(c, ri, path)
+            if ls:
+                out[path] = ls
+    return out
+
+
+def _cmd_lost_shape(c, ri, node):
+    """an Optional member mentioned ONLY by command-line options that do not change one of its own direct fields (they
+    address deeper members, or repeat a direct field's default): the shape of open finding C06-optional-cmd-lost"""
+    ms = group_mentions(c, ri, node)
+    if not ms or any(ls != {"cmd"} for ls in ms.values()):
+        return False
+    reg = c["regs"][ri]
+    for path in ms:
+        if len(path) == len(node) + 1:
+            v, _ = get_path(c["cmd"], (reg["dest"],) + path)
+            if not same(v, defn_value(reg["cls"], path)):
+                return False
+    return True
 
 
 def erased_value(c, ri, path):
@@ -891,7 +1012,7 @@ def erased_value(c, ri, path):
     if reg["inst"] is not None:
         obj = build_inst(reg["cls"], build_cls(reg["cls"], "E"), reg["inst"])
         for q in path:
-            obj = getattr(obj, q)
+            obj = getattr(obj, q) if obj is not None else None
         slot = inst_attr = obj
     seq = leaf_sources(c, reg, path)
     order = {"kw_before_rl": 0, "kw_before": 0, "kw_after": 1, "ctor": 2, "cli": 3}
@@ -977,10 +1098,30 @@ def oracle(case, obs):
         return fails
     free = kinds & {"scalar_nested", "dict_leaf", "bad_root", "type_key"} or usage_error
     missing = []
+    # members declared `Optional[K] = None`: an instance iff some layer mentions one of its leaves, else None
+    dead = set()
     for ri, r in enumerate(c["regs"]):
+        for node in opt_nodes(r["cls"]):
+            if obs["o"] != "ok" or any(node[:len(d)] == d for (i, d) in dead if i == ri):
+                continue
+            got_node, ok = get_path(obs["v"], (r["dest"],) + node)
+            mentioned = bool(group_mentions(c, ri, node))
+            if ok and got_node is None:
+                dead.add((ri, node))
+                if mentioned:
+                    fails.append({"clause": "optional-collapsed", "node": [ri] + list(node),
+                                  "detail": f"{r['dest']}.{'.'.join(node)} is None although {sorted(group_mentions(c, ri, node).items())[:3]} mention its fields: their values are lost"})
+            elif ok and not mentioned:
+                fails.append({"clause": "optional-materialised", "node": [ri] + list(node),
+                              "detail": f"{r['dest']}.{'.'.join(node)} is an instance although no layer mentions any of its fields"})
+    for ri, r in enumerate(c["regs"]):
+        onodes = list(opt_nodes(r["cls"]))
         for path, f in leaf_paths(r["cls"]):
+            under_opt = any(path[:len(n)] == n for n in onodes)
+            if any(path[:len(d)] == d for (i, d) in dead if i == ri):
+                continue
             exp, layer = expected_leaf(c, ri, path)
-            if exp is None or (layer or "").endswith("?missing"):
+            if (exp is None or (layer or "").endswith("?missing")) and not under_opt:
                 missing.append(path)
             if exp is None:
                 continue
@@ -1018,7 +1159,14 @@ def _null_erases(case, obs, fail):
     return False
 
 
-FINDINGS = {"C06-null-erases": _null_erases}
+def _opt_cmd_lost(case, obs, fail):
+    if case["op"] != "layers.e2e" or fail.get("clause") != "optional-collapsed":
+        return False
+    ri, *node = fail["node"]
+    return _cmd_lost_shape(case["case"], ri, tuple(node))
+
+
+FINDINGS = {"C06-null-erases": _null_erases, "C06-optional-cmd-lost": _opt_cmd_lost}
 
 
 def nontrivial(case, obs):
@@ -1058,6 +1206,15 @@ def tags(case, obs):
         t.append("default:" + ("inst" if r["inst"] is not None else "noinst"))
         for path, f in leaf_paths(r["cls"]):
             t.append(f"winner:{expected_leaf(c, ri, path)[1]}")
+    for ri, r in enumerate(c["regs"]):
+        for node in opt_nodes(r["cls"]):
+            ms = group_mentions(c, ri, node)
+            layers = set().union(*ms.values()) if ms else set()
+            how = ("unmentioned" if not ms else "cmd-only" if layers == {"cmd"} else
+                   "no-cmd:" + "+".join(sorted({"file" if l in ("ctor", "cli") else "kw" if l.startswith("kw") else l for l in layers}))
+                   if "cmd" not in layers else "cmd+other")
+            got = get_path(obs["v"], (r["dest"],) + node) if obs["o"] == "ok" else (None, False)
+            t.append(f"opt:d{len(node)}:{how}:" + ("none" if got[1] and got[0] is None else "inst" if got[1] else "n/a"))
     if c.get("kw_before_rl"):
         t.append("default:kw_before_rootless")
     if c["kw_before"]:
